@@ -33,7 +33,7 @@
 (* and the goroutine census of the process equals the model's.                   *)
 EXTENDS LiteClient, Json, Integers
 
-CONSTANTS Slack, RecoverMs, RetryMs
+CONSTANTS Slack, RecoverMs, RetryMs, MaxCalls
 
 Trace == ndJsonDeserialize("trace.ndjson")
 N     == Len(Trace)
@@ -42,10 +42,9 @@ ASSUME \A i \in Starts : TLCSet(i, 0)
 
 Max2(a, b) == IF a >= b THEN a ELSE b
 Min2(a, b) == IF a <= b THEN a ELSE b
-RECURSIVE MaxOf(_)
-MaxOf(S) == IF S = {} THEN 0 ELSE LET x == CHOOSE y \in S : TRUE IN Max2(x, MaxOf(S \ {x}))
-TCalls  == 1..MaxOf({Trace[i].ncalls : i \in Starts})
-TNConns == Trace[CHOOSE i \in Starts : TRUE].nconns
+\* Calls and NConns are fixed per TLC run by the configuration (the runner groups executions by their number of
+\* connections and knows the largest number of calls); computing them from the trace would be re-done on every use.
+TCalls  == 1..MaxCalls
 Inf == 1000000000
 
 VARIABLES l, seg,
